@@ -3,6 +3,7 @@ package main
 import (
 	"go/token"
 	"go/types"
+	"sort"
 	"strings"
 
 	"golang.org/x/tools/go/ssa"
@@ -246,7 +247,8 @@ func checkC13(e *Engine, r *Report) {
 		r.Check(ok, "x/evm/keeper.Keeper.SetupExecutionContext › counted tx gets gas + receipt", e.Pos(sec.Pos()), "Increase → SetGasUsed → SetTxReceipt on every path, same ctx", "a transaction can be counted without a gas entry or receipt (EndBlock's GetTxReceiptsTransient panics: chain halt; cumulative gas of later txs wrong)")
 		// receipt bytes non-empty: derive from MarshalBinary of a Receipt literal with Status failed
 		if len(sr) == 1 {
-			sl := backSlice(argOf(sr[0], 1), SliceOpts{ThroughCallArgs: alwaysThrough, IntoCallees: func(f *ssa.Function) bool { return f.Parent() == sec }, Depth: 2})
+			secReg := e.privateRegion(sec)
+			sl := backSlice(argOf(sr[0], 1), SliceOpts{ThroughCallArgs: alwaysThrough, IntoCallees: func(f *ssa.Function) bool { return f.Parent() == sec || secReg.in[f] }, Depth: 2})
 			r.Check(sl.Has(func(v ssa.Value) bool { c, ok := v.(*ssa.Call); return ok && isMethodNamed(c, "MarshalBinary") }), "SetupExecutionContext › receipt bytes = marshalled receipt", e.Pos(sr[0].Pos()), "MarshalBinary of the assume-failed receipt", "the assume-failed receipt stored is not a marshalled receipt")
 		}
 		n := 0
@@ -259,25 +261,89 @@ func checkC13(e *Engine, r *Report) {
 		if n == 0 {
 			r.Bad("who counts transactions", e.Pos(sec.Pos()), "no caller of IncreaseTxCountTransient")
 		}
+		// writer and reader of a slot build their key with the same key function; the three slots use three different ones
+		{
+			keyFns := func(fn *ssa.Function) []string {
+				set := map[string]bool{}
+				allInstrs(fn, false, func(_ *ssa.Function, _ *ssa.BasicBlock, in ssa.Instruction) {
+					var rands [16]*ssa.Value
+					for _, op := range in.Operands(rands[:0]) {
+						g, ok := (*op).(*ssa.Function)
+						if !ok || g == nil || pkgPathOf(g) != pkgEvmTypes || g.Signature.Params().Len() != 1 || g.Signature.Results().Len() != 1 {
+							continue
+						}
+						if sl, isS := g.Signature.Results().At(0).Type().Underlying().(*types.Slice); isS && types.Identical(sl.Elem(), types.Typ[types.Byte]) {
+							set[g.Name()] = true
+						}
+					}
+				})
+				var out []string
+				for k := range set {
+					out = append(out, k)
+				}
+				sort.Strings(out)
+				return out
+			}
+			used := map[string]string{}
+			for _, pr := range [][2]string{
+				{"SetGasUsedForCurrentTxTransient", "GetGasUsedForTdxIndexTransient"},
+				{"SetLogCountForCurrentTxTransient", "GetCumulativeLogCountTransient"},
+				{"SetTxReceiptForCurrentTxTransient", "GetTxReceiptsTransient"},
+			} {
+				w, rd := keyFns(e.Fn(pkgEvmKeeper, "Keeper."+pr[0])), keyFns(e.Fn(pkgEvmKeeper, "Keeper."+pr[1]))
+				okK := len(w) == 1 && len(rd) == 1 && w[0] == rd[0]
+				if okK {
+					if other, dup := used[w[0]]; dup {
+						okK = false
+						_ = other
+					}
+					used[w[0]] = pr[0]
+				}
+				r.Check(okK, "slot key › "+pr[0]+" ↔ "+pr[1], e.Pos(e.Fn(pkgEvmKeeper, "Keeper."+pr[0]).Pos()), "same key function "+strings.Join(w, ",")+", not shared with another slot", "the writer and the reader of this per-transaction slot do not build their keys with one and the same key function ("+strings.Join(w, ",")+" vs "+strings.Join(rd, ",")+"), or the function is shared with another slot: receipts/gas/log counts are read from a slot that was never written")
+			}
+		}
 		// slot writers keyed by txCount-1
 		for _, nm := range []string{"SetGasUsedForCurrentTxTransient", "SetLogCountForCurrentTxTransient", "SetTxReceiptForCurrentTxTransient"} {
 			fn := e.Fn(pkgEvmKeeper, "Keeper."+nm)
 			ok := false
+			isIdx := func(v ssa.Value) bool {
+				b, isB := v.(*ssa.BinOp)
+				if !isB || b.Op != token.SUB {
+					return false
+				}
+				k, isK := constInt(b.Y)
+				cc, _ := callOf(b.X)
+				return isK && k == 1 && cc != nil && isCallTo(cc, CallSpec{pkgEvmKeeper, "Keeper", "GetTxCountTransient"})
+			}
 			for _, c := range callsIn(fn, false, func(c ssa.CallInstruction) bool { return isMethodNamed(c, "Set") }) {
-				ks := sliceFrom(c.Common().Args[0])
-				hasIdx := ks.Has(func(v ssa.Value) bool {
-					b, isB := v.(*ssa.BinOp)
-					if !isB || b.Op != token.SUB {
-						return false
-					}
-					k, isK := constInt(b.Y)
-					cc, _ := callOf(b.X)
-					return isK && k == 1 && cc != nil && isCallTo(cc, CallSpec{pkgEvmKeeper, "Keeper", "GetTxCountTransient"})
-				})
 				vs := sliceFrom(c.Common().Args[1])
 				d := dimsOf(c.Common().Args[1])
-				if hasIdx && vs.HasValue(fn.Params[2]) && !d.cumLogs && !d.cumGas {
+				if sliceFrom(c.Common().Args[0]).Has(isIdx) && vs.HasValue(fn.Params[2]) && !d.cumLogs && !d.cumGas {
 					ok = true
+				}
+			}
+			// the store write may sit in a shared unexported helper of the keeper: h(ctx, keyBuilder, value) doing
+			// store.Set(keyBuilder(txCount−1), value); the value parameter is bound at this writer's call site
+			for _, hc := range callsIn(fn, false, func(c ssa.CallInstruction) bool {
+				h := c.Common().StaticCallee()
+				return h != nil && h.Blocks != nil && pkgPathOf(h) == pkgEvmKeeper && h.Object() != nil && !h.Object().Exported()
+			}) {
+				h := hc.Common().StaticCallee()
+				for _, c := range callsIn(h, false, func(c ssa.CallInstruction) bool { return isMethodNamed(c, "Set") }) {
+					if !sliceFrom(c.Common().Args[0]).Has(isIdx) {
+						continue
+					}
+					vs := sliceFrom(c.Common().Args[1])
+					for pi, p := range h.Params {
+						if pi >= len(hc.Common().Args) || !vs.HasValue(p) {
+							continue
+						}
+						arg := hc.Common().Args[pi]
+						d := dimsOf(arg)
+						if sliceFrom(arg).HasValue(fn.Params[2]) && !d.cumLogs && !d.cumGas {
+							ok = true
+						}
+					}
 				}
 			}
 			r.Check(ok, "slot writer › "+nm, e.Pos(fn.Pos()), "store.Set(key(txCount−1), value)", "the per-transaction slot is not keyed by the current transaction's index (txCount−1) or does not store the given value")
